@@ -13,7 +13,7 @@ ASSUMPTIONS = [
     "a run not quiescent after the step budget (150) is reported as a violation (non-termination)",
 ]
 BOUNDS = {
-    "quick": "k in {1,2,3}: MGM, DSA, MGM2 on a lone variable (without constraint / with a unary constraint) and MGM on a pair where one variable also has a unary constraint (k<=2; DSA and MGM2 in thorough); MGM pair, pair+isolated; DSA pair, pair+isolated; MGM2 pair (k<=2, all schedules); chain-3 with k<=2 for MGM (all schedules) and DSA (costs restricted to {0,1}, canonical schedule); min mode (max on pairs); chain-3 with zero tables, k in {2,3}, all FIFO interleavings for DSA and MGM",
+    "quick": "k = 2: MGM, DSA (MGM2 in thorough) on a pair joined by two constraints; k in {1,2,3}: MGM, DSA, MGM2 on a lone variable (without constraint / with a unary constraint) and MGM on a pair where one variable also has a unary constraint (k<=2; DSA and MGM2 in thorough); MGM pair, pair+isolated; DSA pair, pair+isolated; MGM2 pair (k<=2, all schedules); chain-3 with k<=2 for MGM (all schedules) and DSA (costs restricted to {0,1}, canonical schedule); min mode (max on pairs); chain-3 with zero tables, k in {2,3}, all FIFO interleavings for DSA and MGM",
     "thorough": "quick + DSA chain-3 with unrestricted costs (k=1 all schedules, k=2 canonical), chain-3 k=3 (canonical), triangle (k<=2), ternary constraint, MGM2 chain-3 (k<=2, canonical schedule) and MGM2 pair k=3",
 }
 OUTSIDE = "more than 3 computations, domain above 2, stop_cycle above 3, DSA variants B/C on chains"
@@ -35,6 +35,10 @@ def jobs(tier):
         add(algo, "unary", [1, 2, 3])
         if algo == "mgm" or tier == "thorough":
             add(algo, "pair_unary", [1, 2])
+    # two constraints over the same pair of variables (second table pinned to 0 to keep the jobs small)
+    zero_c1 = {"c1_%d%d" % (i, j): 0 for i in range(2) for j in range(2)}
+    for algo in ("mgm", "dsa") + (("mgm2",) if tier == "thorough" else ()):
+        out.append({"name": "%s-pair_dbl-k2-min" % algo, "algo": algo, "spec": spec("pair_dbl", "min", pins=zero_c1), "ks": [2]})
     add("mgm", "chain3", [1, 2])
     add("dsa", "chain3", [1, 2], fixed=True, upfront=True, range=[0, 1])
     if tier == "thorough":
